@@ -852,6 +852,12 @@ func TestConverterPathsAndFiles(t *testing.T) {
 		np := rapid.IntRange(0, 5).Draw(t, "npaths")
 		var labels []string
 		used := map[float32]int{}
+		allSix := rapid.IntRange(0, 7).Draw(t, "allsix") == 0
+		if allSix {
+			// all six registers taken by six distinct opacities, then opacities that are reused
+			np = rapid.IntRange(7, 10).Draw(t, "npaths6")
+			labels = append(labels, "six-distinct-opacities-then-reuse")
+		}
 		for i := 0; i < np; i++ {
 			var p SVGPath
 			if rapid.IntRange(0, 9).Draw(t, "emptyd") != 0 {
@@ -860,7 +866,22 @@ func TestConverterPathsAndFiles(t *testing.T) {
 				p.Cmds = cmds
 				p.D = render(t, cmds, "converter")
 			}
-			switch rapid.IntRange(0, 3).Draw(t, "opacity") {
+			okind := rapid.IntRange(0, 3).Draw(t, "opacity")
+			if allSix {
+				okind = 4
+			}
+			switch okind {
+			case 4:
+				v := ops.F32(opacities[i%6])
+				if i >= 6 {
+					v = ops.F32(rapid.SampledFrom(opacities).Draw(t, "op6"))
+				}
+				if i%2 == 0 {
+					p.Opacity = &v
+				} else {
+					p.FillOpacity = &v
+				}
+				used[float32(v)]++
 			case 0:
 				v := ops.F32(rapid.SampledFrom(opacities).Draw(t, "op"))
 				p.Opacity = &v
